@@ -288,6 +288,18 @@ VCLAUSE(list_templates, 120, 12000, 250000, "lists differ in length or in one el
 	}
 }
 
+namespace
+{
+// Standard errors are square roots of differences of sums: what rounding leaves is an absolute error of order eps*scale^2 in the VARIANCE
+// (scale = magnitude of the data), i.e. sqrt(eps)*scale in a standard error that should vanish. Two standard errors are therefore compared
+// through their squares: |a^2-b^2| <= rel*b^2 + 256*eps*scale^2. (The fuzzer found constant data 30.5 with unequal weights: 1.5e-7 instead of 0.)
+void close_se(Ctx& c, const char* name, double got, double ref, double rel, double scale, const std::string& what)
+{
+	VCHECK(std::isfinite(got) && got >= 0, what << ": standard error " << got);
+	VCLOSE(c, name, got * got, ref * ref, rel * ref * ref + 256 * EPS * scale * scale + 1e-300, what << " (compared through the squares: " << got << " vs " << ref << ")");
+}
+}	// namespace
+
 VCLAUSE(summary_statistics, 1100, 8000, 160000, "the data are shifted far from their spread (|shift| >= 1e6 spreads) or permuted, or N is even")
 {
 	Src& s = c.s;
@@ -354,6 +366,15 @@ VCLAUSE(summary_statistics, 1100, 8000, 160000, "the data are shifted far from t
 	std::vector<double> x((size_t) N);
 	for(auto& v : x)
 		v = (double) s.range(-256, 256) / 8.0;
+	if(s.chance(0.12))
+	{
+		// (nearly) constant data: the spread is zero or a few eighths around a common value (every variance is a small difference of large sums)
+		double base = (double) s.range(-256, 256) / 8.0;
+		int spread	= s.coin() ? 0 : (int) s.range(1, 3);
+		for(auto& v : x)
+			v = base + (spread ? (double) s.range(-spread, spread) / 8.0 : 0.0);
+		c.cls(spread ? "nearly_constant_data" : "constant_data");
+	}
 	double shift = s.coin() ? 0.0 : s.sign() * std::ldexp(1.0, (int) s.range(0, 34));
 	double scal	 = s.sign() * std::ldexp(1.0, (int) s.range(-10, 10));
 	std::vector<double> y((size_t) N), z((size_t) N), perm = x;
@@ -444,7 +465,7 @@ VCLAUSE(summary_statistics, 1100, 8000, 160000, "the data are shifted far from t
 		}
 		long double se2 = (long double) N / (N - 1) / (sw * sw) * (s1 - 2 * xw * s2 + xw * xw * s3);
 		double se = (double) sqrtl(std::max(se2, 0.0L));
-		VCLOSE(c, "weighted_standard_error_definition", wq[1], se, 1e-9 * se + 1e-12, "standard error of the weighted mean (Cochran) with unequal weights");
+		close_se(c, "weighted_standard_error_definition", wq[1], se, 4e-9, 32, "standard error of the weighted mean (Cochran) with unequal weights");
 		std::vector<DataPoint> dsh, dsc;
 		double c2 = std::ldexp(1.0, (int) s.range(0, 8)) * s.sign(), a2 = std::ldexp(1.0, (int) s.range(-6, 6)) * s.sign();
 		for(auto& d : dq)
@@ -454,8 +475,13 @@ VCLAUSE(summary_statistics, 1100, 8000, 160000, "the data are shifted far from t
 		}
 		std::vector<double> wsh, wsc;
 		VMUST_RETURN("Weighted_Average", wsh = Weighted_Average(dsh); wsc = Weighted_Average(dsc));
-		VCLOSE(c, "weighted_se_translation", wsh[1], wq[1], 1e-9 * (se + 1e-3) * (1 + std::fabs(c2)), "standard error of the weighted mean must not change under x -> x + " << c2);
-		VCLOSE(c, "weighted_se_scaling", wsc[1], std::fabs(a2) * wq[1], 1e-10 * std::fabs(a2) * (se + 1e-12), "standard error of the weighted mean must scale with |a| under x -> a x");
+		{
+			std::ostringstream w1, w2;
+			w1 << "standard error of the weighted mean must not change under x -> x + " << c2;
+			w2 << "standard error of the weighted mean must scale with |a| under x -> a x, a=" << a2;
+			close_se(c, "weighted_se_translation", wsh[1], wq[1], 4e-9, 32 + std::fabs(c2), w1.str());
+			close_se(c, "weighted_se_scaling", wsc[1], std::fabs(a2) * wq[1], 4e-10, 32 * std::fabs(a2), w2.str());
+		}
 		VCLOSE(c, "weighted_mean_translation_unequal", wsh[0], wq[0] + c2, 16 * EPS * (32 + std::fabs(c2)), "weighted mean of shifted data (unequal weights)");
 		VCLOSE(c, "weighted_mean_scaling_unequal", wsc[0], wq[0] * a2, 16 * EPS * 32 * std::fabs(a2), "weighted mean of scaled data (unequal weights)");
 		// permutation of the data points (values travel with their weights)
@@ -465,6 +491,6 @@ VCLAUSE(summary_statistics, 1100, 8000, 160000, "the data are shifted far from t
 		std::vector<double> wpm;
 		VMUST_RETURN("Weighted_Average", wpm = Weighted_Average(dpm));
 		VCLOSE(c, "weighted_mean_permutation", wpm[0], wq[0], 16 * EPS * 32, "weighted mean of permuted data points");
-		VCLOSE(c, "weighted_se_permutation", wpm[1], wq[1], 1e-9 * (se + 1e-3), "standard error of the weighted mean of permuted data points");
+		close_se(c, "weighted_se_permutation", wpm[1], wq[1], 4e-9, 32, "standard error of the weighted mean of permuted data points");
 	}
 }
